@@ -54,7 +54,7 @@ def lazy_data(f):
     return out
 
 
-def check_pair(ctx, model, nptdms, tmp, data, index, stats, label, marker):
+def check_pair(ctx, model, nptdms, tmp, data, index, stats, label, marker, cut=False):
     dis, vio = [], []
     T = nptdms.TdmsFile
     p_plain = os.path.join(tmp, "plain.tdms")
@@ -75,16 +75,23 @@ def check_pair(ctx, model, nptdms, tmp, data, index, stats, label, marker):
                                  dict(kind="index", data=data.hex(), index=index.hex(), op=name)))
         return a, b
 
+    def unv(m):
+        # with the data file cut inside the last lead-in the index walk has unpacked one more lead-in than the data walk, so
+        # tdms_version may differ (C09Content.exCutVersions); the version is not among the things the property lists
+        if cut:
+            m.pop("version", None)
+        return m
+
     def rd(p):
         f = T.read(p, raw_timestamps=True)
-        return meta_of(f, True)
+        return unv(meta_of(f, True))
 
     def op(p):
         with T.open(p, raw_timestamps=True) as f:
-            return meta_of(f, False), lazy_data(f)
+            return unv(meta_of(f, False)), lazy_data(f)
 
     def md(p):
-        return meta_of(T.read_metadata(p, raw_timestamps=True), False)
+        return unv(meta_of(T.read_metadata(p, raw_timestamps=True), False))
     a, _ = both("TdmsFile.read", rd)
     both("TdmsFile.open", op)
     both("TdmsFile.read_metadata", md)
@@ -201,27 +208,15 @@ def run(ctx):
             violations += v
             if len(data) > len(index) + 0:
                 nontrivial.add(data)
-            # correspondence only: data file shorter than the index describes
+            # data file shorter than the index describes (crash while the index was already complete): the with/without-index
+            # oracle and the model's index walk with the clamp against the data file's size
             if segs is not None and i % 4 == 0 and len(data) > 60:
-                k = ctx.rnd.randint(max(4, len(data) - 40), len(data) - 1)
-                cd = data[:k]
-                pth = os.path.join(tmp, "cut.tdms")
-                with open(pth, "wb") as fh:
-                    fh.write(cd)
-                with open(pth + "_index", "wb") as fh:
-                    fh.write(index)
-                r = cl.call(lambda: nptdms.TdmsFile.open(pth, raw_timestamps=True))
-                if r[0] == "ok":
-                    real = canon.dump_reader(r[1]._reader)
-                    real["ok"] = True
-                    r[1].close()
-                else:
-                    real = dict(ok=False, err=r[1], exc=r[2])
-                m = model.ask("meta - %s %d" % (hx(index), len(cd)))
-                stats["truncated"] += 1
-                dd = compare_state(m, real)
-                if dd:
-                    disagreements.append(dict(what="index with a shorter data file (cut at %d): %s" % (k, dd[0]), data=cd.hex(), index=index.hex()))
+                cuts = {ctx.rnd.randint(max(4, len(data) - 40), len(data) - 1), ctx.rnd.randint(4, len(data) - 1)}
+                for k in sorted(cuts):
+                    stats["truncated"] += 1
+                    d, v = check_pair(ctx, model, nptdms, tmp, data[:k], index, stats, "%s, data file cut at %d" % (label, k), True, cut=True)
+                    disagreements += d
+                    violations += v
             if len(samples) < 2 and segs is not None and len(data) < 300:
                 samples.append(dict(encoding=gen_files.to_line(segs)))
             if len(violations) >= 5 or len(disagreements) >= 20:
@@ -234,7 +229,7 @@ def run(ctx):
                 coverage=dict(evaluations=stats["comparisons"] + stats["model"] + stats["index_only"] + stats["truncated"], distinct_nontrivial=len(nontrivial),
                               rule="generated files (standard; every eighth DAQmx; every eighth written by TdmsWriter with index_file=True over 1-2 sessions) on disk in a "
                                    "temporary directory, with no index / the Lean-spec index / the TdmsWriter index; read, open (+ lazy full reads), read_metadata, index "
-                                   "alone; every fourth file additionally with the data file cut short under the full index (correspondence only); non-trivial = distinct "
+                                   "alone; every fourth file additionally with the data file cut short at two offsets under the full index (same with/without-index oracle, tdms_version excluded); non-trivial = distinct "
                                    "files holding raw data",
                               samples=samples or [dict(note="writer-produced files")], counts=stats))
 
